@@ -747,6 +747,7 @@ type FinalState struct {
 	Tables      int
 	FreshDigest string // the same digest read through a connection opened after everything else finished (what any other process sees)
 	FreshErr    string
+	AppBlocked  []string // foreground application statements that failed with SQLITE_BUSY/locked while nothing else was running
 	AppBusy     bool // an application statement failed with SQLITE_BUSY/locked (it lost a race for a lock): the run is not the same application history as one where it succeeded
 }
 
@@ -776,7 +777,12 @@ func RunFinal(h History) (FinalState, RunStats, error) {
 			st.Errors++
 			st.ErrKinds = append(st.ErrKinds, op.K+" "+trunc(out, 70))
 			if !isLitestreamOp(op.K) && isBusyText(out) {
-				fs.AppBusy = true
+				if e.bgDone != nil || op.K == "cwait" {
+					fs.AppBusy = true // lost a race against the concurrent background writer / litestream working at the same time
+				} else {
+					// a foreground statement with nothing else running: litestream is idle at this point and must not hold a lock
+					fs.AppBlocked = append(fs.AppBlocked, op.String()+": "+trunc(out, 80))
+				}
 			}
 		}
 	}
@@ -872,6 +878,14 @@ func GenC14(r *hx.Rand, thorough bool) History {
 		}
 		if r.Chance(4) {
 			ops = append(ops, Op{K: "snap"})
+		}
+		if r.Chance(4) {
+			// checkpoints with nothing new to copy, then the application writes again
+			m := Modes[r.Intn(4)]
+			ops = append(ops, Op{K: "sync"}, Op{K: "lckpt", S: m}, Op{K: "lckpt", S: []string{"PASSIVE", m}[r.Intn(2)]})
+			if !inBg {
+				ops = append(ops, genAppOp(r, h.Cfg.PageSize))
+			}
 		}
 		if r.Chance(6) {
 			// a local storage fault while litestream checkpoints / syncs / snapshots, then it goes away
